@@ -4,6 +4,8 @@ L2: real SupervisorNamespaceRPCInterface calls executed inside the real main loo
 answers polled by the loop, all eight states at request time, both wait modes, group/all forms (monitors) and single forms (model).
 L1 (make_allfunc): the real closure returned by supervisor.rpcinterface.make_allfunc driven with scripted predicate / func /
 callbacks over dummy (group, process) pairs, invocation by invocation against the Lean model Model/AllFunc.lean, plus monitors.
+L1 (command file): the real check_execv_args / get_execv_args / startProcess / spawn over a virtual file system (props/c13_execv.py)
+against Model/Execv.lean, plus monitors for "NO_FILE or NOT_EXECUTABLE when it cannot exist or be executed".
 """
 import itertools, re
 from props import l2common, c13_execv
@@ -22,6 +24,13 @@ TRUSTED = l2common.TRUSTED + [
     "the caller follows the deferred-response protocol (DeferredXMLRPCResponse.more / multicall): the closure is invoked again only "
     "while it answered NOT_DONE_YET (AllFunc.run); that every single-process call inside a group call behaves as the single-call "
     "theorems say is the composition of the two models, exercised by the L2 monitor mon_c13_groups, not a theorem",
+    "Model/Execv.lean: the answers of stat() (st_mode or failure) and of os.access(file, X_OK) for every candidate file of the command "
+    "lookup are inputs; stat.S_ISDIR / stat.S_IMODE / `&` mean what Python's stat module and integers say (constants dumped from the "
+    "stat module); shlex.split's verdict on the command (unparsable / no words / program with or without '/') is an input; spawn()'s "
+    "second get_execv_args() of one startProcess call gets the same answers as the pre-flight one; a special file (fifo, device, "
+    "socket) with an execute bit counts as executable, as it does for check_execv_args",
+    "props/c13_execv.py: access(X_OK) of the virtual file system follows the kernel's owner / group / other classes (root: any execute "
+    "bit), with a noexec-mount and an ACL override; fork / pipes / kill stay scripted (proc_l1.ScriptedOptions)",
 ]
 ASSUMPTIONS = ["deferred callbacks are polled once per pass by the channel (as medusa does when the channel is writable)"]
 RULE = ("L2: scenarios as for C02 with an RPC in about half of the passes (start/stop/signal on name, group:name, group:*, unknown names, "
@@ -30,7 +39,15 @@ RULE = ("L2: scenarios as for C02 with an RPC in about half of the passes (start
         "make_allfunc: a regression corpus, every list of up to 3 processes over {eligible, not} x {value, fault, callback done at poll 1/2/3 "
         "with value or fault}, and random lists of 0-6 (group, process) pairs (duplicate pairs and group == name included) with random "
         "predicate answers (False or None for 'no'), immediate outcomes, poll scripts of 1-5 polls ending in a value or a fault, and keyword "
-        "arguments; the real closure is invoked until it answers; non-trivial = at least one eligible process; distinct = distinct case line")
+        "arguments; the real closure is invoked until it answers; non-trivial = at least one eligible process; distinct = distinct case line.  "
+        "Command file: check_execv_args on every st_mode of {regular, directory} x all 512 permission words (thorough: all 4096 incl. "
+        "setuid/setgid/sticky) and special files, x access true/false; per (user in root / owner / group member / stranger, owner, kind, "
+        "mode, noexec / ACL override) one fresh process started by startProcess(wait false / true) or by spawn() alone (autostart); "
+        "missing files and stat failures (EACCES, ENOTDIR, ELOOP, ENAMETOOLONG) for explicit, ./relative and $PATH commands; random "
+        "histories of 3-16 operations on one Subprocess (all eight states at request time) with the candidate files changing between "
+        "operations (chmod, chown, removed, replaced by a directory), commands with arguments / quotes / no words / unbalanced quotes, "
+        "$PATH from the program's environment or supervisord's with 1-3 directories; non-trivial = at least one lookup; distinct = "
+        "distinct case + operation lines")
 
 
 # ---------------------------------------------------------------------------------------------- make_allfunc (L1)
@@ -374,7 +391,10 @@ def replay(ctx, data):
 TECHNIQUE = ("Lean 4 theorems on the RPC layer of the process/daemon model (answers vs forks/signals/states, for all states and environment "
              "answers) and on an executable model of make_allfunc's closure (invariant over every process list, predicate, single-call outcome "
              "and schedule of callback completions) + correspondence with the real rpcinterface executed inside the unmodified main loop and "
-             "with the real make_allfunc closure driven invocation by invocation")
+             "with the real make_allfunc closure driven invocation by invocation; the command-file clause: theorems on a model of "
+             "check_execv_args / get_execv_args / the pre-flight test of startProcess / the try at the head of spawn() whose tests, raised "
+             "classes, except clauses and statement order are regenerated from /repo, + correspondence with the real functions over a "
+             "virtual file system (stat / access answers), + monitors restating the clause")
 LEVEL_TEXT = ("start_forks_only_if_eligible, start_true_sound, stop_not_running_exact, stop_true_sound, signal_exact and the deferred-answer soundness "
               "lemmas are proved for every process state, mood and environment answer.  Group/all forms: group_conservation (at every moment each "
               "eligible process is pending or has exactly one entry, equal to what its single call reported), group_entries_exact / "
@@ -382,7 +402,11 @@ LEVEL_TEXT = ("start_forks_only_if_eligible, start_true_sound, stop_not_running_
               "group_func_called_once, group_polls_once_per_invocation, group_pending_polled_n_times, group_answers_eventually are proved for every "
               "environment and every number of invocations; "
               "the tests, returned values and entry fields of the closure, the loop-over-a-copy / remove(struct) structure, the three predicates "
-              "and the predicate/method pairing of the six public methods are regenerated from /repo on every run")
+              "and the predicate/method pairing of the six public methods are regenerated from /repo on every run.  Command file: "
+              "check_accepts_iff_executable (ok exactly when the file is there, is no directory, has an execute bit AND access(X_OK) holds), "
+              "check_rejections, lookup_accepts_iff_executable, lookup_file ($PATH: first candidate whose stat succeeds), start_file_fault_exact "
+              "(NO_FILE / NOT_EXECUTABLE and nothing else happens), start_forks_only_if_executable, spawn_forks_only_if_executable are proved "
+              "for every stat / access answer, command shape, candidate list, process state and fork answer")
 LEVEL_NOTE = ("the group theorems are about make_allfunc's closure with the behaviour of the single calls as an arbitrary input; that the "
               "single calls made inside a group call behave as the single-call theorems say (composition with Model/Sup.lean, where each call "
               "also reaps and thereby changes the state the next predicate test sees) is checked by the L2 monitor mon_c13_groups, not proved; "
